@@ -16,6 +16,7 @@ def run(ck, tier):
     ck.rule("R-C02-tile", "PlainEnglish::parse: every pushed token has span (cursor, cursor + next_index) and the only update of cursor on the way back to the loop head is cursor += next_index with that same next_index, so the lexer stage tiles the text exactly")
     ck.rule("R-C02-rebase", "offset provenance: where a parser hands a sub-slice of its source to an inner parser and shifts the resulting spans, the sub-slice is cut directly out of the source parameter and the shift equals the start of that very cut; line-splitting parsers advance their offset by line.len() + 1 exactly once per iteration on every path")
     ck.rule("R-C02-twins", "quote twins are token *indices*: in Document::parse no call that can change the number or order of tokens (transitively: remove_indices / clear / push / insert / remove / retain / truncate / drain / extend on self.tokens) is reachable after match_quotes")
+    ck.rule("R-C02-stale", "token indices do not survive a resize: in every Document method that removes tokens through an index list, an index collected before an earlier removal of the same method is re-based by exactly the number of tokens that removal takes out in front of it (stretch - 1 per entry of the earlier list); indices used by the first removal are the scan counter itself")
     ck.rule("R-C02-condense", "merging never loses characters: in the queue-based condensing passes of Document every token index pushed onto the removal queue is paired with an assignment that extends a kept token's span (before the push in the same iteration, or on every path from the push to remove_indices)")
     ck.not_decided += ["ordering/disjointness of Markdown / tree-sitter derived tokens (foreign parsers)", "lexical meaning of token text (number values, punctuation identity)", "quote twin validity", "Markdown::parse and Typst offset bookkeeping (byte/char accumulators: see C04)"]
     p = facts.load()
@@ -25,6 +26,7 @@ def run(ck, tier):
     _rebase_acc(ck, p, byk)
     _condense(ck, p, byk)
     _quotes_last(ck, p, byk)
+    _stale(ck, p, byk)
 
 
 # ---------------------------------------------------------------------------------------------------
@@ -444,3 +446,112 @@ def _quotes_last(ck, p, byk):
         ck.refuted(rule, "Document::parse:after-match_quotes", f.loc(later[0][1]), "%s runs after match_quotes and can remove or insert tokens: every quote after the edit keeps a twin index that no longer points at its partner" % later[0][0])
     else:
         ck.proved(rule, "Document::parse:after-match_quotes", f.span, "%d Document passes run after match_quotes; none can change the number or order of tokens (resizing passes before it: %s)" % (n, before))
+
+
+def _stale(ck, p, byk, rule="R-C02-stale"):
+    from ..prover import Ctx, analyze, UNKNOWN, ref_bases
+    methods = [f for f in p.fns.values() if f.name.startswith("harper_core::document::") and f.get("kind") not in ("Closure", "Promoted")]
+    n_methods = 0
+    for f in sorted(methods, key=lambda f: f.name):
+        res = [(bi, t) for bi, t in f.calls() if method(t) in ("condense_indices", "remove_indices") and
+               (inst_of(t).endswith("document::{impl}::condense_indices") or inst_of(t).endswith("vec_ext::{impl}::remove_indices"))]
+        if not res:
+            continue
+        n_methods += 1
+        ck.saw(f)
+        cfg = Cfg(f)
+        cx = Ctx(p, {})
+        pushes = {}
+        stretch = {}
+
+        def call(cx_, fn, bb, t, a, st, reports):
+            if fn is not f:
+                return None
+            m = method(t)
+            if m in ("push", "push_back") and len(a) > 1:
+                pushes.setdefault(bb, []).append(a[1])
+            if m == "condense_indices" and len(a) > 2:
+                stretch[bb] = a[2]
+            return None
+        cx.hooks["call"] = call
+        try:
+            analyze(cx, f, [UNKNOWN] * f["argc"], [])
+        except Exception as e:
+            ck.undecided(rule, keyname(p, f), f.span, "prover could not follow the method: %s" % type(e).__name__)
+            continue
+        rb = ref_bases(cx, f)
+        pv = Prov(f)
+
+        def base_of(op):
+            pl = place_of(op)
+            if not pl:
+                return None
+            l = pl[0]
+            for _ in range(6):
+                if l in rb:
+                    l = rb[l]
+                    continue
+                # moves and derefs
+                ds = [x for (b2, si, kind, x) in pv.defs.get(l, [])]
+                nxt = None
+                for x in ds:
+                    if "rv" in x and x["rv"]["k"] == "use" and place_of(x["rv"]["op"]):
+                        nxt = place_of(x["rv"]["op"])[0]
+                    elif "args" in x and method(x) in ("deref", "as_slice", "as_ref", "borrow") and place_of(x["args"][0]):
+                        nxt = place_of(x["args"][0])[0]
+                if nxt is None or nxt == l:
+                    break
+                l = nxt
+            return l
+        # order the removals
+        res.sort(key=lambda bt: sum(1 for b2, _ in res if cfg.dominates(b2, bt[0])))
+        lists = []
+        for bi, t in res:
+            is_ci = method(t) == "condense_indices"
+            L = base_of(t["args"][1])
+            per = None
+            if is_ci:
+                sv = stretch.get(bi)
+                per = (sv[1].c - 1) if sv is not None and sv[0] == "int" and sv[1].is_const() else None
+            else:
+                per = 1
+            lists.append((bi, t, L, per))
+        if len(res) == 1:
+            ck.proved(rule, keyname(p, f), f.loc(res[0][1]["ln"]), "one removal per call of the method: its indices are used before any resize")
+            continue
+        ok_all = True
+        for j, (bj, tj, Lj, perj) in enumerate(lists):
+            psites = [(bi, t) for bi, t in f.calls() if method(t) in ("push", "push_back") and base_of(t["args"][0]) == Lj]
+            for pb, pt in psites:
+                earlier = [(bi, L, per) for (bi, t, L, per) in lists[:j] if not cfg.dominates(bi, pb)]
+                vals = pushes.get(pb, [])
+                key = "%s:%s" % (keyname(p, f), f.debug_names().get(Lj, "_%s" % Lj))
+                if not vals or any(v[0] != "int" for v in vals) or any(per is None for _, _, per in earlier):
+                    ck.undecided(rule, key, f.loc(pt["ln"]), "the pushed index or an earlier stretch length is not an affine value the prover tracks")
+                    ok_all = False
+                    continue
+                want = {}
+                for bi, L, per in earlier:
+                    sym = cx.callsym.get((f.name, "clen", L))
+                    want[sym] = want.get(sym, 0) - per
+                verdict = "PROVED"
+                detail = ""
+                for v in vals:
+                    lin = v[1]
+                    coeffs = dict(lin.t)
+                    counters = [sy for sy, c in coeffs.items() if sy not in want and c == 1 and cx.names.get(sy, "").startswith(("range_", "enum", "iter"))]
+                    others = [sy for sy in coeffs if sy not in want and sy not in counters]
+                    if len(counters) != 1 or others or lin.c != 0 or None in want:
+                        verdict = "UNDECIDED"
+                        detail = "pushed value %s is not `counter - k * len(earlier list)`" % cx.show(lin)
+                        break
+                    got = {sy: coeffs.get(sy, 0) for sy in want}
+                    if got != want:
+                        verdict = "REFUTED"
+                        detail = "pushed value %s, but the removal(s) before it take out %s token(s) per earlier entry: the index points %s token(s) past the intended one for every earlier entry" % (
+                            cx.show(lin), ", ".join(str(-c) for c in want.values()), ", ".join(str(got[sy] - want[sy]) for sy in want))
+                        break
+                    detail = "pushed value %s re-bases by exactly the tokens removed before it" % cx.show(lin)
+                ck.ob(rule, key, verdict, f.loc(pt["ln"]), detail)
+                ok_all = ok_all and verdict == "PROVED"
+    ck.floor(rule, "Document methods that remove tokens through an index list", n_methods, 5)
